@@ -218,5 +218,64 @@ CLAIMS = {
   design_ref="DESIGN.md §3 C08, §2 M/H/P/R"),
 }
 
+
+# ---- round-2 addenda: rules added or restated after the second sub-agent round (appended to the claim texts) ----------
+ROUND2 = {
+ "C01": " The slab header overhead loop is compared with the record-layout size of the object constructed at the slab start "
+        "(not with the spelling of the sizeof); running indices are followed through lock-step induction.",
+ "C02": " In-place realloc arms are judged on realloc() with its bool helpers folded in (new_size <= usable size must be "
+        "known where the old pointer is returned); the head-slab repair and the re-insertion of a formerly full slab are "
+        "decided by exact path-sensitive evaluation over all valuations of (head present, addresses) and both entry values of "
+        "the free list; no tree navigation starts from a node after remove() cleared its links (K.stale-after-remove).",
+ "C06": " Both insert descents are decided by path-sensitive interpretations (comparator verdict / before-null-ness, cursor "
+        "origin) independent of branch shape; remove() is judged with its helpers folded in; a snapshot of a hook field sees the "
+        "same writes on every path to its use (K.conditional-snapshot).",
+ "C07": " The search structure is decided by path-sensitive interpretation over small order types: callback iff overlap, "
+        "result = overlap or hit below, subtrees skipped only as the guard allows; the aggregate of a relinked node is "
+        "refreshed before any rebalancing call on the path.",
+ "C08": " Read-after-clear is alias-aware per path (x = c ? a : b); no neighbour-link snapshot is used after the root was "
+        "merged (K.stale-after-root-merge); K.conditional-snapshot as in C06.",
+ "C12": " swap is path-sensitive: every exit path exchanges every member (only an identity test may return early).",
+ "C13": " small_vector's inline/heap selection is decided semantically: the conditions (through predicate helpers) guarding "
+        "each site are evaluated for capacity in {N-1, N, N+1}.",
+ "C14": " remove()'s unlink store is justified by a path-sensitive must-analysis of which location holds each chain pointer "
+        "(predecessor idiom, pointer-to-link idiom, any loop form); a walk never steps through a link it already overwrote; "
+        "all members narrow the hash identically before the modulo; a bucket variable that still holds a placeholder is not a "
+        "bucket of the key.",
+ "C15": " View subscripts (own pointer and other views through operator[]) are bounded by a relational bounds analysis "
+        "against the view's length (zone domain with widening), independent of loop form; the old buffer may be released "
+        "directly or through a member called on *this.",
+ "C16": " Also: nothing is copied out of a string buffer after it was released (directly or via resize()); a hash_map node "
+        "is unlinked from the location that holds it before it is destroyed.",
+ "C17": " An assignment that takes its source by reference never destroys the held object (directly or via emplace/reset "
+        "helpers) before the source was read (O6.source-read-before-destroy); bool locals that snapshot a flag test are "
+        "followed.",
+ "C18": " seed() writes every member on every path and establishes the lazy-refill condition of operator() (I.seed-complete); "
+        "array_concat copies each piece to at + j and passes at + extent on (E.concat-offset, polynomial normal form with "
+        "lock-step induction).",
+ "C19": " The length-modifier table is obtained by path-sensitive enumeration of (conversion letter, size modifier) over the "
+        "CFG (if-chains, switches and dispatch helpers alike); the chunking logger keeps 0 <= offset < Limit as an exact inductive "
+        "invariant of all members; every failed spec parse / argument print leads to an echo of [start, close]; the per-spec "
+        "options object is fresh for every specifier.",
+ "C20": " Loop progress and cursor rules follow new helpers, lambdas and reference parameters (virtual inlining with jump "
+        "threading of constant boolean returns).",
+}
+for _k, _v in ROUND2.items():
+    CLAIMS[_k]["text"] = CLAIMS[_k]["text"] + _v
+ROUND2_TECH = {
+ "C02": "; exact path-sensitive evaluation of the head-repair / re-insert decisions over finite valuations; rules stated on virtually inlined variants",
+ "C06": "; path-sensitive abstract interpretation of the descents; rules on folded (virtually inlined) variants of remove(); snapshot write-set agreement",
+ "C07": "; path-sensitive abstract interpretation of the search over small order types (replaces syntactic containment)",
+ "C08": "; alias-aware path-sensitive read-after-clear; snapshot staleness rules",
+ "C13": "; semantic evaluation of guard conditions over finite valuations",
+ "C14": "; path-sensitive must-analysis of link locations (LinkSlots); sibling agreement on hash narrowing",
+ "C15": "; relational bounds analysis (zone domain, widening) for view subscripts; may-release call summaries",
+ "C17": "; destroy-before-source-read ordering with destroyer summaries",
+ "C18": "; polynomial offset arithmetic with lock-step induction; must-write sets of seed()",
+ "C19": "; path-sensitive enumeration of selector parameters over the CFG incl. switches; exact finite-state inductive invariant of the logger",
+}
+for _k, _v in ROUND2_TECH.items():
+    CLAIMS[_k]["technique"] = CLAIMS[_k]["technique"] + _v
+
 NOT_YET = "check not built yet in this revision (see DESIGN.md §7 order of work); not claimed until it exists"
 NA = {}
